@@ -260,10 +260,50 @@ func (ifs *IfStatement) WriteTo(cw *CodeWriter) {
 	ifs.Condition.WriteTo(cw)
 	cw.WriteRune(')')
 	cw.WriteSpace()
-	ifs.ThenBranch.WriteTo(cw)
+	if ifs.ElseBranch != nil && endsWithOpenIf(ifs.ThenBranch) {
+		// `if (a) if (b) c; else d` would give the else to the inner if
+		writeBraced(cw, ifs.ThenBranch)
+	} else {
+		ifs.ThenBranch.WriteTo(cw)
+	}
 	if ifs.ElseBranch != nil {
 		cw.WriteString(" else ")
 		ifs.ElseBranch.WriteTo(cw)
+	}
+}
+
+// writeBraced writes a statement between braces exactly as a BlockStatement around it would be
+// written, so that printing the re-parsed output reproduces it.
+func writeBraced(cw *CodeWriter, stmt Statement) {
+	cw.WriteRune('{')
+	cw.WriteNewline()
+	cw.IncreaseIndent()
+	cw.WriteIndent()
+	stmt.WriteTo(cw)
+	cw.DecreaseIndent()
+	cw.WriteNewline()
+	cw.forgetOmittedSemi() // a closing brace follows
+	cw.WriteIndent()
+	cw.WriteRune('}')
+}
+
+// endsWithOpenIf reports whether an `else` written after the statement would be taken by an
+// else-less if at its end.
+func endsWithOpenIf(stmt Statement) bool {
+	for {
+		switch s := stmt.(type) {
+		case *IfStatement:
+			if s.ElseBranch == nil {
+				return true
+			}
+			stmt = s.ElseBranch
+		case *WhileStatement:
+			stmt = s.Body
+		case *ForStatement:
+			stmt = s.Body
+		default:
+			return false
+		}
 	}
 }
 
